@@ -359,3 +359,37 @@ func PreservesUnknown(md protoreflect.MessageDescriptor) bool {
 	preservesCache.Store(md.FullName(), res)
 	return res
 }
+
+var treePreservesCache sync.Map
+
+// TreePreservesUnknown reports whether md and every message type reachable from it can hold
+// unknown fields (see PreservesUnknown).
+func TreePreservesUnknown(md protoreflect.MessageDescriptor) bool {
+	if v, ok := treePreservesCache.Load(md.FullName()); ok {
+		return v.(bool)
+	}
+	res := treePreserves(md, map[protoreflect.FullName]bool{})
+	treePreservesCache.Store(md.FullName(), res)
+	return res
+}
+
+func treePreserves(md protoreflect.MessageDescriptor, seen map[protoreflect.FullName]bool) bool {
+	if seen[md.FullName()] {
+		return true
+	}
+	seen[md.FullName()] = true
+	if !PreservesUnknown(md) {
+		return false
+	}
+	fs := md.Fields()
+	for i := 0; i < fs.Len(); i++ {
+		sub := fs.Get(i).Message()
+		if fs.Get(i).IsMap() {
+			sub = fs.Get(i).MapValue().Message()
+		}
+		if sub != nil && !treePreserves(sub, seen) {
+			return false
+		}
+	}
+	return true
+}
